@@ -512,6 +512,18 @@ def run_property(mod, prop_id, tier, seed, replay=None):
             if replay:
                 mod.replay(ctx, json.load(open(replay)))
             else:
+                # corpus first: minimised past failures (pinned-tree defects, seeded changes); they must pass on a correct tree
+                cdir = os.path.join(VERIF, 'corpus', prop_id)
+                if os.path.isdir(cdir) and hasattr(mod, 'replay'):
+                    for fn in sorted(os.listdir(cdir)):
+                        if fn.endswith('.json'):
+                            try:
+                                mod.replay(ctx, json.load(open(os.path.join(cdir, fn))))
+                                ctx.tag('corpus-replayed')
+                            except InfraError:
+                                raise
+                            except Exception:
+                                ctx.harness_exceptions += 1
                 mod.run(ctx)
             if ctx.harness_exceptions:
                 print(f'HARNESS-EXCEPTIONS {ctx.harness_exceptions} (first: {ctx.log.get("first_harness_exception", "")[-400:]})')
